@@ -427,9 +427,11 @@ def errors(g, thorough, count):
     # an error that arises inside a macro expansion (the diagnostic belongs to the use, not to a place in the expanded text)
     mlib = "macro addn(a,b) -> add a, b <-\nmacro twice(r) -> addn(r, r) addn(r, bl) <-\nmacro setb(q) -> mov al, q <-\nmacro jj(l) -> jmp l <-\n"
     for use in ("addn(ax, bl)", "setb(300)", "twice(cx)", "addn(ax)", "setb(word [bx])", "inc cx\n  addn(al, word w)", "jj(nolabel)", "jj(v)",
-                "jj(aa)\njj(bb)\njj(cc)\njj(dd)\njj(ee)\njj(ff)", "jj(zz)\njj(yy)\njj(xx)\njmp ww\njj(vv)"):
-        out.append(mlib + base.replace("mov ax, 1", "mov ax, 1\n" + use, 1))
-        out.append(mlib + base.replace("inc bx", "inc bx\n" + use, 1))
+                "jj(aa)\njj(bb)\njj(cc)\njj(dd)\njj(ee)\njj(ff)", "jj(zz)\njj(yy)\njj(xx)\njmp ww\njj(vv)",
+                "six(u1,u2,u3,u4,u5,u6)", "six(k6,k5,k4,k3,k2,k1)", "six(lab,q2,lab,q1,start,q0)", "six(m3,m1,m2,m1,m3,m2)\nsix(n1,n2,n3,n4,n5,n6)"):
+        wl = base.replace("w: dw 7\n", "w: dw 7\n" + mlib + "macro six(a,b,c,d,e,g) -> jmp a jz b jc c loop d jmp e jnz g <-\n", 1)
+        out.append(wl.replace("mov ax, 1", "mov ax, 1\n" + use, 1))
+        out.append(wl.replace("inc bx", "inc bx\n" + use, 1))
     for a, n_ in [(1048575, 0), (1048575, 1), (0xFFFF0, 15), (0xFFFF0, 16), (0, 1048575), (0, 1048576)]:
         out.append(base.replace("mov ax, 1", "print mem %d : %d" % (a, n_), 1))
     # boundary values of the constant ranges (accepted / rejected by one)
